@@ -34,7 +34,25 @@ def setup():
     if not got.startswith(src + os.sep):
         raise SystemExit(f"harness error: basictdf imported from {got}, expected {src}")
     _install_clock()
+    _limit_memory()
     _ready = True
+
+
+def _limit_memory(gib=4):
+    """Decoding garbage that a defective write path produced can ask for tens of gigabytes (array extents
+    read from the wrong place); with an address-space limit that is a prompt MemoryError instead of
+    minutes of paging.  The checks themselves need well under 1 GiB per process."""
+    try:
+        import resource
+
+        soft, hard = resource.getrlimit(resource.RLIMIT_AS)
+        want = gib << 30
+        if hard != resource.RLIM_INFINITY:
+            want = min(want, hard)
+        if soft == resource.RLIM_INFINITY or soft > want:
+            resource.setrlimit(resource.RLIMIT_AS, (want, hard))
+    except Exception:  # noqa: BLE001
+        pass
 
 
 class _Clock:
@@ -145,6 +163,34 @@ def poisoned_allocator(byte):
         yield
     finally:
         np.empty = real_empty
+
+
+class LibraryCallTimeout(Exception):
+    pass
+
+
+@contextlib.contextmanager
+def time_limit(seconds):
+    """Bound a call into the library (decoding garbage that a defective write path produced can loop over
+    billions of frames).  SIGALRM based: only effective in the main thread of a process, which is where all
+    explorers run."""
+    import signal
+    import threading
+
+    if threading.current_thread() is not threading.main_thread() or not hasattr(signal, "setitimer"):
+        yield
+        return
+
+    def on_alarm(signum, frame):
+        raise LibraryCallTimeout(f"library call did not return within {seconds} s")
+
+    old = signal.signal(signal.SIGALRM, on_alarm)
+    signal.setitimer(signal.ITIMER_REAL, seconds)
+    try:
+        yield
+    finally:
+        signal.setitimer(signal.ITIMER_REAL, 0)
+        signal.signal(signal.SIGALRM, old)
 
 
 def rotate(seq, k=None):
